@@ -27,8 +27,12 @@ import enum
 import functools
 import inspect
 import io
+import json
+import os
 import random
 import re
+import subprocess
+import sys
 import uuid
 import warnings
 
@@ -54,6 +58,15 @@ from inscripta.biocantor.sequence.alphabet import Alphabet  # noqa: E402
 
 PARENT_CLS = Parent.__wrapped__
 ADDR = re.compile(r" at 0x[0-9a-fA-F]+")
+
+
+SETDISPLAY = re.compile(r"\{([^{}]*)\}")
+
+
+def _text(s):
+    """str()/repr() text without memory addresses and with the elements of printed sets in sorted order (their order
+    is that of a salted hash; the references come from another process)"""
+    return SETDISPLAY.sub(lambda m: "{" + ", ".join(sorted(x.strip() for x in m.group(1).split(","))) + "}", ADDR.sub("", s))
 
 
 def cold():
@@ -311,9 +324,11 @@ def _tables(recipe, obj):
     d = recipe.data
     L = d["L"]
     t = {}
-    t["__hash__"] = lambda o, c: hash(o)
-    t["__str__"] = lambda o, c: str(o)
-    t["__repr__"] = lambda o, c: ADDR.sub("", repr(o))
+    # hash values are salted per process (the references come from another process): the question asked is whether
+    # the object hashes like a twin built just now; raw values are compared within the process by `snapshot`
+    t["__hash__"] = lambda o, c: hash(o) == hash(c.recipe.build())
+    t["__str__"] = lambda o, c: _text(str(o))
+    t["__repr__"] = lambda o, c: _text(repr(o))
     t["__eq__:twin"] = lambda o, c: o == c.twin
     if k != "parent":
         t["__len__"] = lambda o, c: len(o)
@@ -436,8 +451,9 @@ def _tables(recipe, obj):
             t["query_by_guids:none"] = lambda o, c: o.query_by_guids([uuid.UUID(int=7)])
             t["__iter__"] = lambda o, c: iter(o)
             for name in ("to_gff", "export_qualifiers", "to_dict", "chromosome_location", "get_spliced_sequence",
-                         "qualifiers", "__hash__", "chunk_relative_location", "to_bed12"):
+                         "qualifiers", "chunk_relative_location", "to_bed12"):
                 t["child0." + name] = (lambda name: lambda o, c: _get(next(iter(o)), name))(name)
+            t["child0.__hash__"] = lambda o, c: hash(next(iter(o))) == hash(next(iter(c.recipe.build())))
             if k == "gene":
                 for name in ("num_chunk_relative_codons", "extract_sequence", "has_valid_stop"):
                     t["cds0." + name] = (lambda name: lambda o, c: _get(o.get_primary_cds(), name))(name)
@@ -462,8 +478,9 @@ def _tables(recipe, obj):
             t["to_dict:parent"] = lambda o, c: o.to_dict(export_parent=True)
             t["__iter__"] = lambda o, c: iter(o)
             t["to_genbank"] = _to_genbank
-            for name in ("to_gff", "export_qualifiers", "to_dict", "qualifiers", "__hash__"):
+            for name in ("to_gff", "export_qualifiers", "to_dict", "qualifiers"):
                 t["child0." + name] = (lambda name: lambda o, c: _get(next(iter(o)), name))(name)
+            t["child0.__hash__"] = lambda o, c: hash(next(iter(o))) == hash(next(iter(c.recipe.build())))
     return t
 
 
@@ -628,8 +645,10 @@ def _mut_label(paths, before=None, after=None):
     added or removed, and every set that changed GAINED values (superset of what it was)."""
     if all(p.endswith("#spelling") for p in paths):
         return "val(seqtype-spelling)"
-    if all("qualifiers" in p for p in paths if p != "/eq_twin"):
-        if before is not None and set(before) == set(after) and all(before[k] <= after[k] for k in before):
+    qp = [p for p in paths if p != "/eq_twin"]
+    if qp and all("qualifiers" in p for p in qp):
+        if before is not None and set(before) == set(after) and all(before[k] <= after[k] for k in before) \
+                and any(before[k] < after[k] for k in before):
             return "mut(qualifiers)"
         return "mut(qualifier-keys-or-loss)"
     return f"mut({_short(paths[0])})"
@@ -679,11 +698,10 @@ def is_filler(tok):
     return tok in ("T:s", "T:e", "W", "X", "S") or (tok[0] == "P" and tok[1:].isdigit())
 
 
-def run_history(kindmode, seed, tokens, snap_every=True):
+def reference_answers(kindmode, seed, tokens):
+    """{call token: canonical answer of a freshly built twin asked this ONE question under cold caches}"""
     kind, mode, spelling = (kindmode.split(".") + [None])[:3]
     recipe = G.make(kind, random.Random(seed), mode, spelling)
-    rng = random.Random(seed * 7919 + 13)
-    # reference answers: fresh twin, cold caches, ONE question
     cold()
     table = call_table(recipe, recipe.build())
     ref = {}
@@ -691,10 +709,102 @@ def run_history(kindmode, seed, tokens, snap_every=True):
         if is_filler(tok) or tok in ref:
             continue
         if tok not in table:
-            return f"err! UnknownCall:{tok}"
+            return {"__unknown__": tok}
         cold()
         twin = recipe.build()
         ref[tok] = ask(table[tok], twin, Ctx(recipe, twin))
+    return ref
+
+
+# Every `hist` line is evaluated by a helper process (one per worker) that has imported the library but never calls it:
+# it forks child A to compute the references and child B to run the history against them.  Both are PRISTINE copies of
+# the same interpreter (same hash salt), so (i) state that survives `cache_clear()` — a module- or class-level memo —
+# cannot leak from earlier operation lines or from this line's history into the references, and (ii) the verdict of a
+# line does not depend on which worker evaluates it.  If the helper cannot be started the line is evaluated in-process
+# (cold caches only).
+_SERVER = {"proc": None, "failed": False}
+
+
+def _server():
+    if _SERVER["failed"] or os.environ.get("VERIF_C10_INPROCESS"):
+        return None
+    p = _SERVER["proc"]
+    if p is not None and p.poll() is None and _SERVER.get("pid") == os.getpid():
+        return p
+    try:
+        p = subprocess.Popen([sys.executable, "-m", "harness.impl_history"], stdin=subprocess.PIPE,
+                             stdout=subprocess.PIPE, text=True, bufsize=1,
+                             cwd=os.path.dirname(os.path.dirname(os.path.abspath(__file__))))
+        if p.stdout.readline().strip() != "ready":
+            raise RuntimeError("history helper did not start")
+        _SERVER.update(proc=p, pid=os.getpid())
+        return p
+    except Exception:  # noqa
+        _SERVER["failed"] = True
+        return None
+
+
+def isolated_history(kindmode, seed, tokens):
+    p = _server()
+    if p is not None:
+        try:
+            p.stdin.write(json.dumps({"km": kindmode, "seed": seed, "toks": tokens}) + "\n")
+            p.stdin.flush()
+            ans = json.loads(p.stdout.readline())
+            if "out" in ans:
+                return ans["out"]
+        except Exception:  # noqa
+            _SERVER["failed"] = True
+    return run_history(kindmode, seed, tokens, reference_answers(kindmode, seed, tokens))
+
+
+def _in_child(fn):
+    """run fn() in a forked child, return its JSON-able result"""
+    r, w = os.pipe()
+    pid = os.fork()
+    if pid == 0:
+        os.close(r)
+        try:
+            out = json.dumps({"ok": fn()})
+        except BaseException as e:  # noqa
+            out = json.dumps({"err": type(e).__name__ + ": " + str(e)[:200]})
+        with os.fdopen(w, "w") as fh:
+            fh.write(out)
+        os._exit(0)
+    os.close(w)
+    with os.fdopen(r) as fh:
+        out = fh.read()
+    os.waitpid(pid, 0)
+    return json.loads(out) if out else {"err": "no answer"}
+
+
+def serve():
+    """main loop of the helper: never touches the library itself"""
+    sys.stdout.write("ready\n")
+    sys.stdout.flush()
+    for line in sys.stdin:
+        try:
+            req = json.loads(line)
+        except ValueError:
+            break
+        a = _in_child(lambda: reference_answers(req["km"], req["seed"], req["toks"]))
+        if "ok" not in a:
+            res = {"out": "err! Harness:" + a["err"].replace(" ", "_")}
+        else:
+            b = _in_child(lambda: guarded(lambda: run_history(req["km"], req["seed"], req["toks"], a["ok"])))
+            res = {"out": b["ok"]} if "ok" in b else {"out": "err! Harness:" + b["err"].replace(" ", "_")}
+        sys.stdout.write(json.dumps(res) + "\n")
+        sys.stdout.flush()
+
+
+def run_history(kindmode, seed, tokens, ref, snap_every=True):
+    kind, mode, spelling = (kindmode.split(".") + [None])[:3]
+    recipe = G.make(kind, random.Random(seed), mode, spelling)
+    rng = random.Random(seed * 7919 + 13)
+    if "__unknown__" in ref:
+        return f"err! UnknownCall:{ref['__unknown__']}"
+    cold()
+    table = call_table(recipe, recipe.build())
     # the object under test
     cold()
     obj = ctx = snap0 = None
@@ -924,6 +1034,10 @@ def impl_history_op(line):
 
     def go():
         if t[0] == "hist":
-            return run_history(t[1], int(t[2]), t[3:])
+            return isolated_history(t[1], int(t[2]), t[3:])
         return OPS[t[0]](t)
     return guarded(go)
+
+
+if __name__ == "__main__":
+    serve()
